@@ -3,8 +3,15 @@ from .. import core, wire
 
 PROP = "C12"
 MODULE = "GmqttVerif.Properties.C12"
-THEOREMS = ["GmqttVerif.Broker.lifetime_capped", "GmqttVerif.Broker.never_delivered_after_deadline",
-            "GmqttVerif.Broker.forwarded_interval"]
+THEOREMS = ["GmqttVerif.Broker.lifetime_capped",
+            "GmqttVerif.Broker.lifetime_capped_queued",
+            "GmqttVerif.Broker.enqueue_time_logged",
+            "GmqttVerif.Broker.deliver_copies_expiry",
+            "GmqttVerif.Broker.never_delivered_after_deadline",
+            "GmqttVerif.Broker.pump_is_rounds",
+            "GmqttVerif.Broker.forwarded_interval",
+            "GmqttVerif.Broker.forwarded_interval_pkt",
+            "GmqttVerif.Broker.forwarded_interval_wire"]
 COMPS = ["broker"]
 
 def gen(rng):
